@@ -2,6 +2,7 @@
 EXTENDS Cmd, Json, IOUtils
 Rec == ndJsonDeserialize(IOEnv.TRACE)
 VARIABLE l
+ED == INSTANCE Edid
 tvars == <<cvars, l>>
 Ev == Rec[l]
 Is(name) == l <= Len(Rec) /\ Rec[l].e = name /\ l' = l + 1
@@ -21,7 +22,10 @@ TTDrop == IsT("drop") /\ DeviceReset
 TQAdd  == Is("QAdd") /\ IF ccfg.kind = "sound" /\ Ev.q = 2 THEN TxAdd ELSE UNCHANGED cvars
 TQPop  == Is("QPop") /\ IF ccfg.kind = "sound" /\ Ev.q = 2 THEN TxPop ELSE UNCHANGED cvars
 TDrop  == Is("Drop") /\ call = None /\ UNCHANGED cvars
-TraceNext == TReset \/ TCall \/ TCmd \/ TTx \/ TDone \/ TRet \/ TAlloc \/ TFree \/ TStat \/ TTDrop \/ TQAdd \/ TQPop \/ TDrop
+\* the EDID extractors applied to the blob the last get_edid returned (Edid.tla)
+ToPairs(ms) == [i \in 1..Len(ms) |-> <<ms[i][1], ms[i][2]>>]
+TEdid  == Is("Edid") /\ call = None /\ ED!EdidOk(Ev.size, Ev.st, Ev.dtd, Ev.pref, ToPairs(Ev.modes)) /\ UNCHANGED cvars
+TraceNext == TReset \/ TCall \/ TCmd \/ TTx \/ TDone \/ TRet \/ TAlloc \/ TFree \/ TStat \/ TTDrop \/ TQAdd \/ TQPop \/ TDrop \/ TEdid
 TraceSpec == TraceInit /\ [][TraceNext]_tvars
 TraceAccepted ==
   LET d == TLCGet("stats").diameter IN
